@@ -421,6 +421,9 @@ def flushed_lists(fi, loop):
         if isinstance(st, ast.For) and isinstance(st.iter, ast.Name):
             if any(isinstance(x, (ast.Yield, ast.YieldFrom)) for x in ast.walk(st)):
                 out.add(st.iter.id)
+        # the same flush written as `yield from <list>`
+        if isinstance(st, ast.Expr) and isinstance(st.value, ast.YieldFrom) and isinstance(st.value.value, ast.Name):
+            out.add(st.value.value.id)
     return out
 
 
@@ -433,6 +436,8 @@ def resloop_signature(repo, res, rl: ResLoop, cap=4096):
     en = Enumerator(cap=cap, where=fi.qualname)
     sigs = []
     for p in en.body_paths(rl.node):
+        if infeasible_by_values(p):
+            continue
         val = at.path_atoms(p)
         if val is None:
             continue
@@ -744,3 +749,81 @@ def toplevel_qualname(fi):
     functions (their own names are an implementation detail a refactoring may change)."""
     mod, q = fi.qualname.split(':', 1)
     return mod + ':' + q.split('.')[0]
+
+
+def dominating_tests(node, stop):
+    """(test, polarity) of every `if` between node and stop whose branch contains node"""
+    out = []
+    cur = node
+    while getattr(cur, '_parent', None) is not None and cur is not stop:
+        par = cur._parent
+        if isinstance(par, ast.If):
+            if any(cur is x for x in par.body):
+                out.append((par.test, True))
+            elif any(cur is x for x in par.orelse):
+                out.append((par.test, False))
+        # statements before it in the same block that leave the block when their test holds: `if T: continue` ... node
+        for fld in ('body', 'orelse', 'finalbody'):
+            blk = getattr(par, fld, None)
+            if isinstance(blk, list) and any(cur is x for x in blk):
+                for prev in blk[:[i for i, x in enumerate(blk) if x is cur][0]]:
+                    if isinstance(prev, ast.If) and not prev.orelse and prev.body and \
+                            isinstance(prev.body[-1], (ast.Continue, ast.Break, ast.Return, ast.Raise)):
+                        out.append((prev.test, False))
+        cur = par
+    res_ = []
+    for t, pol in out:
+        if isinstance(t, ast.UnaryOp) and isinstance(t.op, ast.Not):
+            t, pol = t.operand, not pol
+        res_.append((t, pol))
+    return res_
+
+
+
+
+def dominating_atoms(node, stop):
+    """dominating_tests split into atoms: `A and B` that holds gives A, B; `A or B` that does not hold gives not A, not B"""
+    out = []
+
+    def split(t, pol):
+        if isinstance(t, ast.UnaryOp) and isinstance(t.op, ast.Not):
+            split(t.operand, not pol)
+        elif isinstance(t, ast.BoolOp) and ((isinstance(t.op, ast.And) and pol) or (isinstance(t.op, ast.Or) and not pol)):
+            for v in t.values:
+                split(v, pol)
+        else:
+            out.append((t, pol))
+    for t, pol in dominating_tests(node, stop):
+        split(t, pol)
+    return out
+
+
+def infeasible_by_values(path):
+    """A path whose guard tests a name for truth after the same path bound that name to a literal of the opposite truth value
+    (names = []; ... if names: ...) cannot be taken."""
+    from .pathvals import PathValues
+    try:
+        pv = PathValues(path)
+    except Exception:
+        return False
+    for g, pol in pv.guards:
+        t = g
+        if isinstance(t, ast.UnaryOp) and isinstance(t.op, ast.Not):
+            t, pol = t.operand, not pol
+        truth = None
+        if isinstance(t, ast.Constant):
+            truth = bool(t.value)
+        elif isinstance(t, (ast.List, ast.Tuple, ast.Set)):
+            truth = bool(t.elts)
+        elif isinstance(t, ast.Dict):
+            truth = bool(t.keys)
+        elif isinstance(t, ast.Call) and isinstance(t.func, ast.Name) and t.func.id in ('dict', 'list', 'set', 'tuple') and \
+                not t.args and not t.keywords:
+            truth = False
+        elif isinstance(t, ast.Compare) and len(t.ops) == 1 and isinstance(t.ops[0], (ast.Gt, ast.NotEq)) and \
+                isinstance(t.left, ast.Call) and isinstance(t.left.func, ast.Name) and t.left.func.id == 'len' and t.left.args and \
+                isinstance(t.left.args[0], (ast.List, ast.Tuple)) and isinstance(t.comparators[0], ast.Constant) and t.comparators[0].value == 0:
+            truth = bool(t.left.args[0].elts)
+        if truth is not None and truth != pol:
+            return True
+    return False
